@@ -463,6 +463,66 @@ class Summaries:
                 return None
             ctx.env = r[1]
             return ite(c, variant("Err", r[0]), variant("Ok", payload(a[0], "Ok", 0)))
+        # ---- Option / Result / bool combinators (closures are applied under the condition in which they run) ----
+        def under(cond, fn, args):
+            env0 = dict(ctx.env)
+            if cond is not TRUE:
+                env0["$pc"] = env0["$pc"] + (cond,)
+            r_ = I.apply_fn(fn, args, ctx.e, env0, ctx.fr)
+            if r_ is None:
+                return None
+            return r_[0]
+        m_ = re.match(r"core::(option::Option::<T>|result::Result::<T, E>)::(\w+)$", tp)
+        if m_:
+            is_opt = m_.group(1).startswith("option")
+            okv, errv = ("Some", "None") if is_opt else ("Ok", "Err")
+            meth = m_.group(2)
+            x = a[0]
+            c = is_variant(x, okv)
+            good = payload(x, okv, 0)
+            bad = variant("None") if is_opt else variant("Err", payload(x, "Err", 0))
+            if meth == "and_then":
+                if c is FALSE:
+                    return x
+                r_ = under(c, a[1], [good])
+                return None if r_ is None else ite(c, r_, bad)
+            if meth == "or_else":
+                if c is TRUE:
+                    return x
+                r_ = under(not_(c), a[1], [] if is_opt else [payload(x, "Err", 0)])
+                return None if r_ is None else ite(c, x, r_)
+            if meth == "unwrap_or_else":
+                r_ = under(not_(c), a[1], [] if is_opt else [payload(x, "Err", 0)])
+                return None if r_ is None else ite(c, good, r_)
+            if meth == "map_or":
+                r_ = under(c, a[2], [good])
+                return None if r_ is None else ite(c, r_, a[1])
+            if meth == "map_or_else":
+                r1 = under(not_(c), a[1], [] if is_opt else [payload(x, "Err", 0)])
+                r2 = under(c, a[2], [good])
+                return None if r1 is None or r2 is None else ite(c, r2, r1)
+            if meth == "ok_or_else" and is_opt:
+                r_ = under(not_(c), a[1], [])
+                return None if r_ is None else ite(c, variant("Ok", good), variant("Err", r_))
+            if meth == "filter" and is_opt:
+                r_ = under(c, a[1], [good])
+                return None if r_ is None else ite(and_(c, r_), x, variant("None"))
+            if meth in ("or",):
+                return ite(c, x, a[1])
+            if meth in ("and",):
+                return ite(c, a[1], bad)
+            if meth in ("copied", "cloned", "as_ref", "as_mut", "as_deref"):
+                return x
+            if meth == "err" and not is_opt:
+                return ite(c, variant("None"), variant("Some", payload(x, "Err", 0)))
+            if meth == "is_some_and" or meth == "is_ok_and":
+                r_ = under(c, a[1], [good])
+                return None if r_ is None else and_(c, r_)
+        if tp == "core::bool::<impl bool>::then":
+            r_ = under(a[0], a[1], [])
+            return None if r_ is None else ite(a[0], variant("Some", r_), variant("None"))
+        if tp == "core::bool::<impl bool>::then_some":
+            return ite(a[0], variant("Some", a[1]), variant("None"))
         if tp == "core::ops::FnOnce::call_once" or tp == "core::ops::Fn::call" or tp == "core::ops::FnMut::call_mut":
             args = list(a[1].args) if a[1].op == "tuple" else ([] if a[1] is UNIT else [a[1]])
             r = I.apply_fn(a[0], args, ctx.e, ctx.env, ctx.fr)
